@@ -61,5 +61,9 @@ Finished(p) == pc[p] > Len(Script[p])
 InGuard(p) == Cardinality({k \in 1..(pc[p] - 1) : Script[p][k] = "guard"}) > Cardinality({k \in 1..(pc[p] - 1) : Script[p][k] = "endguard"})
 SameAsAlone == \A p \in Parsers : Finished(p) => seen[p] = SeqSeen(Script[p], 1, 0)
 TableRestored == (\A p \in Parsers : ~ InGuard(p)) => table = "map"
-ExportBad == (SameAsAlone /\ TableRestored) \/ PrintT(<<"BEHAVIOUR", ToJson(hist)>>)
+ExportBadSeen == SameAsAlone \/ PrintT(<<"BEHAVIOUR", ToJson(hist)>>)
+\* the corruption that stays: all parsers are done and the table is not what it was
+AllFinished == \A p \in Parsers : Finished(p)
+TableFinal == AllFinished => table = "map"
+ExportBadTable == TableFinal \/ PrintT(<<"BEHAVIOUR", ToJson(hist)>>)
 =============================================================================
